@@ -99,6 +99,12 @@ pub struct ClockPlan {
     /// the simulated wall clock readings (seconds since the epoch) at which the certificate is
     /// presented, in order: a skewed / jumping clock is just a sequence of such readings
     pub nows: Vec<i64>,
+    /// 0: the server presents the certificate alone. 1: an impostor presents its own acceptable
+    /// leaf (P-256, same validity window) followed by the pinned certificate - the pinned one is
+    /// not the leaf, so nothing may be accepted. 2: the pinned leaf followed by an unrelated
+    /// certificate - judged like the leaf alone.
+    #[serde(default)]
+    pub chain: u8,
 }
 
 fn clock_sweep_len() -> usize {
@@ -129,7 +135,8 @@ pub fn gen_clock(seed: u64, index: usize) -> ClockPlan {
         };
         nows.push((base + skew).max(0));
     }
-    ClockPlan { seed, key, set, not_before: nb, window, nows }
+    let chain = if index >= clock_sweep_len() && rng.chance_pm(300) { rng.range(1, 2) as u8 } else { 0 };
+    ClockPlan { seed, key, set, not_before: nb, window, nows, chain }
 }
 
 pub fn exec_clock(p: &ClockPlan, _trace: bool) -> Exec {
@@ -140,12 +147,21 @@ pub fn exec_clock(p: &ClockPlan, _trace: bool) -> Exec {
     let (der, _key) = make_cert(p.key, p.not_before, na);
     let h = digest_of(&der);
     let verifier = ServerHashVerification::new(hashes_for(p.set, &h, &mut rng));
-    let cert = CertificateDer::from(der);
+    let pinned = CertificateDer::from(der);
+    // a second, unpinned certificate with an acceptable key and the same window
+    let (other_der, _k2) = make_cert(KeyKind::P256, p.not_before, na);
+    let other = CertificateDer::from(other_der);
+    let (cert, tail): (CertificateDer, Vec<CertificateDer>) = match p.chain {
+        1 => (other.clone(), vec![pinned.clone()]),
+        2 => (pinned.clone(), vec![other.clone()]),
+        _ => (pinned.clone(), vec![]),
+    };
     let name = ServerName::try_from("localhost").unwrap();
     let mut h64 = crate::rng::FNV_INIT;
+    ex.probe("chains_with_pinned_certificate_not_leaf", (p.chain == 1) as u64);
     for now in &p.nows {
-        let r = std::panic::catch_unwind(std::panic::AssertUnwindSafe(|| verifier.verify_server_cert(&cert, &[], &name, &[], UnixTime::since_unix_epoch(Duration::from_secs(*now as u64)))));
-        let want = must_accept(p.key, p.set, p.not_before, na, *now);
+        let r = std::panic::catch_unwind(std::panic::AssertUnwindSafe(|| verifier.verify_server_cert(&cert, &tail, &name, &[], UnixTime::since_unix_epoch(Duration::from_secs(*now as u64)))));
+        let want = p.chain != 1 && must_accept(p.key, p.set, p.not_before, na, *now);
         match r {
             Err(_) => {
                 ex.violation("C10/panic", format!("verify_server_cert panicked at now = not_before {:+} s", now - p.not_before));
@@ -157,7 +173,8 @@ pub fn exec_clock(p: &ClockPlan, _trace: bool) -> Exec {
                     ex.violation(
                         if want { "C10/pinned-cert-refused" } else { "C10/unacceptable-cert-accepted" },
                         format!(
-                            "key {:?}, validity {} s ({}), hash set {:?}, clock at not_before {:+} s / not_after {:+} s: verifier said {}, expected {}",
+                            "{}key {:?}, validity {} s ({}), hash set {:?}, clock at not_before {:+} s / not_after {:+} s: verifier said {}, expected {}",
+                            match p.chain { 1 => "chain [unpinned P-256 leaf, pinned certificate]: pinned ", 2 => "chain [pinned leaf, unrelated certificate]: leaf ", _ => "" },
                             p.key,
                             p.window,
                             if p.window <= 14 * DAY { "<= 14 days" } else { "> 14 days" },
@@ -222,6 +239,9 @@ pub enum Ident {
     LibrarySelfSigned,
     /// P-256/P-384/Ed25519 with a window placed relative to the clock the policy reads
     Custom { key: KeyKind, start_off: i64, window: i64 },
+    /// an impostor: its own valid short-lived P-256 leaf, followed in the chain by the
+    /// certificate the client has pinned
+    ImpostorWithPinnedTail,
 }
 
 #[derive(Serialize, Deserialize, Clone, Debug)]
@@ -260,7 +280,8 @@ const POLICIES: [Policy; 12] = [
 ];
 
 /// identities whose windows stay at least two days away from the clock that judges them
-const IDENTS: [Ident; 9] = [
+const IDENTS: [Ident; 10] = [
+    Ident::ImpostorWithPinnedTail,
     Ident::LibrarySelfSigned,
     Ident::Custom { key: KeyKind::P256, start_off: -2 * DAY, window: 12 * DAY }, // valid, short-lived
     Ident::Custom { key: KeyKind::P256, start_off: -10 * DAY, window: 8 * DAY }, // expired two days ago
@@ -299,8 +320,16 @@ pub fn exec_hs(p: &HsPlan, trace: bool) -> Exec {
                 let id = Identity::new(CertificateChain::single(Certificate::from_der(der).map_err(|e| format!("{e:?}"))?), PrivateKey::from_der_pkcs8(k));
                 (id, key, nb, nb + window)
             }
+            Ident::ImpostorWithPinnedTail => {
+                let nb = judge_now - 2 * DAY;
+                let (leaf, k) = make_cert(KeyKind::P256, nb, nb + 7 * DAY);
+                let (pinned, _) = make_cert(KeyKind::P256, nb, nb + 7 * DAY);
+                let chain = CertificateChain::new(vec![Certificate::from_der(leaf).map_err(|e| format!("{e:?}"))?, Certificate::from_der(pinned).map_err(|e| format!("{e:?}"))?]);
+                (Identity::new(chain, PrivateKey::from_der_pkcs8(k)), KeyKind::P256, nb, nb + 7 * DAY)
+            }
         };
-        let h = identity.certificate_chain().as_slice()[0].hash();
+        let chain_certs = identity.certificate_chain().as_slice();
+        let h = chain_certs[if p.ident == Ident::ImpostorWithPinnedTail { 1 } else { 0 }].hash();
         let saddr: SocketAddr = harness::SERVER_ADDR.parse().unwrap();
         let caddr: SocketAddr = harness::CLIENT_ADDR.parse().unwrap();
         let k = EpKnobs::default();
@@ -365,6 +394,7 @@ pub fn exec_hs(p: &HsPlan, trace: bool) -> Exec {
         Some(Ok((connected, offered, key, nb, na))) => {
             ex.nontrivial = true;
             let want = match p.policy {
+                Policy::Hashes(_) | Policy::PinnedOnSimClock(_) if p.ident == Ident::ImpostorWithPinnedTail => false,
                 Policy::Hashes(set) | Policy::PinnedOnSimClock(set) => must_accept(key, set, nb, na, judge_now),
                 Policy::NativeCerts => false,
                 Policy::NoValidation => true,
